@@ -2,14 +2,12 @@
 pub const FELTS_PER_U64: usize = 2; // qp-poseidon-core 3.1.0 src/serialization.rs:27
 pub const POSEIDON2_OUTPUT: usize = 4; // qp-poseidon-core 3.1.0 src/poseidon2.rs:22 (re-exported by common/src/serialization.rs)
 
-/// plonky2 CircuitConfig: opaque here (policy checked by validate_circuit_config, see unit config_policy)
-#[verifier::external_body]
-pub struct CircuitConfig { _p: u8 }
-
 impl CircuitBuilder<F, D> {
-    // circuit_builder.rs CircuitBuilder::new: empty constraint set, no public inputs
+    // circuit_builder.rs CircuitBuilder::new: empty constraint set, no public inputs.
+    // C28 "before any build": the config handed to the builder must already satisfy the structural policy.
     #[verifier::external_body]
     pub fn new(config: CircuitConfig) -> (r: Self)
+        requires cfg_policy(&config),
         ensures r.sat(), r.pis() == Seq::<Target>::empty(),
     { unimplemented!() }
 }
